@@ -8,19 +8,20 @@
    fs_terminal_entry the repaired FloorSet terminal rectangles
    (fixes/C19-floorset-terminal-position.diff).
 
+   solution_to_netlist / legal_netlist / alloc_netlist_doc mirror the REPAIRED builders
+   (fixes/C19-solution-to-netlist-writer.diff, fixes/C19-legalfloor-get-netlist.diff,
+   fixes/C19-get-netlist-zero-area.diff); the builders as found are kept under names ending in _found.
+
    Status: die_rt, alloc_rt, netgen_<topology> (all seven, every size of the domain),
-   named_edges_pure: PROVED.  solution_netlist_rt / legal_netlist_rt: the full statements
-   are FALSE of the code as it is (open findings F14b, F14c): _refuted by witnesses.
-   solution_netlist_rt_partial is proved on the part of the preserved sub-class that needs no
-   STOG reasoning (soft modules given by a single ground area and a centre, nets of weight 1);
-   missing for the rest of the sub-class (modules with rectangles, hard / fixed modules, modules
-   in the result) and for legal_netlist_rt_partial: that create_stog recognises again the trunk
-   of the rectangles as they are written (trunk first, then N, S, E, W) - the canonical-design
-   obligation of C04; there the correspondence and the direct oracle speak.
-   Grid with --add-centers and the FloorSet converter: correspondence + oracle only. *)
+   named_edges_pure, solution_netlist_rt, legal_netlist_rt: PROVED (the last two through
+   image_canonical / rt_read_write of C04 and create_stog_stable).  The builders as found are
+   refuted by witnesses (the _found_refuted theorems); solution_netlist_found_partial says what the code as
+   found did preserve.  With a non-empty result solution_to_netlist replaces rectangles: the
+   document is then compared by the correspondence and the oracle only. *)
 From FrameModel Require Import Num.QcTac Geometry.Rect Alloc.Alloc Yaml.Tree Yaml.NetlistRead Yaml.NetlistWrite
   Yaml.Netgen Yaml.NetgenFacts Yaml.NetgenHTree Yaml.DieAlloc Yaml.DieAllocFacts Yaml.Producers
-  Yaml.ProducersFacts Yaml.ProducersPartial.
+  Yaml.ProducersFacts Yaml.ProducersPartial Yaml.ProducersRT Yaml.ProducersFloat Yaml.ProducersAlloc
+  Yaml.NetgenGridCenters.
 Open Scope Qc_scope.
 
 (* ---------------- the die ---------------- *)
@@ -110,6 +111,15 @@ Theorem C19_netgen_grid : forall sqrt_o epsdef rows cols area,
 Proof. exact netgen_grid. Qed.
 Print Assumptions C19_netgen_grid.
 
+(* grid with --add-centers: every module also gets the centre gen_modules computed for it
+   ((0.5 + c) * w / cols + noise, (0.5 + r) * h / rows + noise), whatever random.gauss returned *)
+Theorem C19_netgen_grid_centers : forall sqrt_o epsdef rows cols area w h noise,
+  (1 <= cols)%nat -> Qcltb 0 area = true ->
+  read_netlist sqrt_o epsdef (gen_grid rows cols area (Some (w, h, noise))) =
+  Ok (loaded sqrt_o epsdef area (grid_entries_c w h rows cols noise) (grid_wedges rows cols)).
+Proof. exact netgen_grid_centers. Qed.
+Print Assumptions C19_netgen_grid_centers.
+
 Theorem C19_netgen_htree : forall sqrt_o epsdef l area,
   (1 <= l)%nat -> Qcltb 0 area = true ->
   exists doc, gen_htree l area = Some doc /\
@@ -132,34 +142,102 @@ Theorem C19_named_edges_found_refuted :
 Proof. exact named_edges_found_refuted. Qed.
 Print Assumptions C19_named_edges_found_refuted.
 
-(* ---------------- the string builders ---------------- *)
-Definition C19_solution_netlist_rt_statement : Prop := solution_netlist_rt_statement.
-Definition C19_legal_netlist_rt_statement : Prop := legal_netlist_rt_statement.
+(* ---------------- rect_io.solution_to_netlist (repaired) ---------------- *)
+(* reader after builder: every loaded netlist, written with no module re-shaped, is accepted
+   back with the same modules (kinds, flip, areas per region, aspect ratios, centres, rectangles
+   with regions and roles), the same nets and weights and the same tolerances *)
+Theorem C19_solution_netlist_rt : forall sqrt_o e doc n,
+  read_netlist sqrt_o e doc = Ok n ->
+  exists n', read_netlist sqrt_o e (solution_to_netlist n []) = Ok n' /\
+             nl_modules n' = nl_modules n /\ nl_nets n' = nl_nets n /\ nl_eps n' = nl_eps n.
+Proof. exact solution_netlist_rt. Qed.
+Print Assumptions C19_solution_netlist_rt.
 
-(* on soft modules given by area and centre with unit-weight nets the document is accepted
-   back with the same modules and nets *)
-Theorem C19_solution_netlist_rt_partial : forall sqrt_o epsdef xs nets rects eps,
+(* a module the result does not name is written exactly as Netlist.write_yaml writes it *)
+Theorem C19_solution_netlist_other : forall result m,
+  lookup (m_name m) result = None -> sol_entry result m = (m_name m, YMap (write_module m)).
+Proof. exact sol_entry_other. Qed.
+Print Assumptions C19_solution_netlist_other.
+
+(* ---------------- rect_io.get_netlist(None, allocation) (repaired) ---------------- *)
+(* for every allocation the constructor accepts, the netlist built from its cells is accepted and
+   has one soft module per module of the allocation, in order of first appearance, with the area
+   and the centre the Allocation computes (area_of, center_of), and no net *)
+Theorem C19_alloc_netlist_rt : forall sqrt_o e aeps cells,
+  accepted aeps cells ->
+  read_netlist sqrt_o e (alloc_netlist_doc cells) =
+  Ok (mkNetlist (map (alloc_module cells) (module_names cells)) [] []
+                (epsilon_after sqrt_o e (map (alloc_module cells) (module_names cells)))).
+Proof. exact alloc_netlist_rt. Qed.
+Print Assumptions C19_alloc_netlist_rt.
+
+(* ---------------- legalfloor Model.get_netlist (repaired) ---------------- *)
+(* the document of a model that was built (a module, every module with a rectangle) is the one
+   Netlist.write_yaml gives for the netlist whose rectangle numbers are floats *)
+Theorem C19_legal_netlist_doc : forall sqrt_o e t n,
+  read_netlist sqrt_o e t = Ok n -> buildable n -> legal_netlist n = Some (write_netlist (fln n)).
+Proof. exact legal_netlist_doc. Qed.
+Print Assumptions C19_legal_netlist_doc.
+
+(* reader after builder: accepted, and loaded as the design the model was built from - modules,
+   kinds, flip, areas per region, aspect ratios, centres, the rectangles in their order with
+   regions and roles (their four numbers as floats: flm), nets, weights, tolerances *)
+Theorem C19_legal_netlist_rt : forall sqrt_o e doc n,
+  read_netlist sqrt_o e doc = Ok n -> buildable n ->
+  exists t n', legal_netlist n = Some t /\ read_netlist sqrt_o e t = Ok n' /\
+               nl_modules n' = map flm (nl_modules n) /\ nl_nets n' = nl_nets n /\ nl_eps n' = nl_eps n.
+Proof. exact legal_netlist_rt. Qed.
+Print Assumptions C19_legal_netlist_rt.
+
+(* outside that domain no model can be built (tau = .../len(ml); a 0 x 0 trunk) *)
+Theorem C19_legal_netlist_domain : forall n,
+  (nl_modules n = [] -> legal_netlist n = None) /\
+  (forall m, In m (nl_modules n) -> m_rects m = [] -> legal_netlist n = None).
+Proof. exact (fun n => conj (legal_netlist_none_modules n) (legal_netlist_none_rects n)). Qed.
+Print Assumptions C19_legal_netlist_domain.
+
+(* the hypotheses are satisfiable (the witnesses of the refutations below) *)
+Theorem C19_legal_rt_example : forall sqrt_o,
+  exists n, read_netlist sqrt_o eps_ref doc_weight_rects = Ok n /\ buildable n.
+Proof. exact legal_rt_example. Qed.
+Print Assumptions C19_legal_rt_example.
+
+(* ---------------- the string builders as found ---------------- *)
+Definition C19_solution_found_rt_statement : Prop := solution_found_rt_statement.
+Definition C19_legal_found_rt_statement : Prop := legal_found_rt_statement.
+
+(* on soft modules given by area and centre with unit-weight nets the document of the code as
+   found is accepted back with the same modules and nets *)
+Theorem C19_solution_netlist_found_partial : forall sqrt_o epsdef xs nets rects eps,
   forallb (fun x => Qcltb 0 (c_area x) && valid_identifier (c_name x)) xs = true ->
   nodup_str (map c_name xs) = true ->
   forallb (unit_net_ok (map c_name xs)) nets = true ->
   let n := mkNetlist (map cmodule xs) nets rects eps in
-  exists t n', solution_to_netlist n [] = Some t /\ read_netlist sqrt_o epsdef t = Ok n' /\
+  exists t n', solution_to_netlist_found n [] = Some t /\ read_netlist sqrt_o epsdef t = Ok n' /\
                nl_modules n' = nl_modules n /\ nl_nets n' = nl_nets n.
 Proof. exact solution_netlist_rt_partial. Qed.
-Print Assumptions C19_solution_netlist_rt_partial.
+Print Assumptions C19_solution_netlist_found_partial.
 
-Theorem C19_solution_netlist_rt_refuted : forall sqrt_o,
-  (exists n t n', read_netlist sqrt_o eps_ref doc_weight = Ok n /\ solution_to_netlist n [] = Some t /\
+Theorem C19_solution_netlist_found_refuted : forall sqrt_o,
+  (exists n t n', read_netlist sqrt_o eps_ref doc_weight = Ok n /\ solution_to_netlist_found n [] = Some t /\
                   read_netlist sqrt_o eps_ref t = Ok n' /\ map n_weight (nl_nets n') <> map n_weight (nl_nets n)) /\
-  (exists n t r, read_netlist sqrt_o eps_ref doc_terminal = Ok n /\ solution_to_netlist n [] = Some t /\
+  (exists n t r, read_netlist sqrt_o eps_ref doc_terminal = Ok n /\ solution_to_netlist_found n [] = Some t /\
                  read_netlist sqrt_o eps_ref t = Reject r).
-Proof. exact solution_netlist_rt_refuted. Qed.
-Print Assumptions C19_solution_netlist_rt_refuted.
+Proof. exact solution_found_refuted. Qed.
+Print Assumptions C19_solution_netlist_found_refuted.
 
-Theorem C19_legal_netlist_rt_refuted : forall sqrt_o,
-  exists n t n', read_netlist sqrt_o eps_ref doc_weight_rects = Ok n /\ legal_netlist n = Some t /\
+Theorem C19_legal_netlist_found_refuted : forall sqrt_o,
+  exists n t n', read_netlist sqrt_o eps_ref doc_weight_rects = Ok n /\ legal_netlist_found n = Some t /\
                  read_netlist sqrt_o eps_ref t = Ok n' /\
                  map n_weight (nl_nets n') <> map n_weight (nl_nets n) /\
                  map mr_region (nl_rects n') <> map mr_region (nl_rects n).
-Proof. exact legal_netlist_rt_refuted. Qed.
-Print Assumptions C19_legal_netlist_rt_refuted.
+Proof. exact legal_found_refuted. Qed.
+Print Assumptions C19_legal_netlist_found_refuted.
+
+(* rect_io.get_netlist as found divides 0 by 0 on an accepted allocation; repaired it gives the module *)
+Theorem C19_alloc_netlist_found_refuted :
+  accepted 0 zero_ratio_cells /\ alloc_netlist_doc_found zero_ratio_cells = None /\
+  alloc_netlist_doc zero_ratio_cells =
+    netlist_doc [("M2"%string, YMap [(KW_AREA, yfloat (qc 4 1)); (KW_CENTER, YList [yfloat (qc 5 1); yfloat (qc 1 1)])])] [].
+Proof. exact alloc_netlist_found_refuted. Qed.
+Print Assumptions C19_alloc_netlist_found_refuted.
